@@ -492,7 +492,7 @@ pub fn run_spec<S: Bim>(s: Arc<S>, threads: usize) -> (Stats, Value) {
                 fails.extend(o.fails);
                 nontrivial += o.nontrivial;
             }
-            for f in fails.into_iter().take(4) {
+            for f in fails.into_iter().take(2) {
                 // right side failures carry (a fixed, b, d): normalise to (a, d, b) argument order of check_case
                 match check_case(&*s, f.side, &f.a, &f.d, &f.b) {
                     Err(msg) => st.violation(
@@ -500,7 +500,7 @@ pub fn run_spec<S: Bim>(s: Arc<S>, threads: usize) -> (Stats, Value) {
                         format!("{} is not a morphism in its {} argument: a={:?} delta={:?} b={:?}: {msg}", s.name(), f.side, f.a, f.d, f.b),
                         json!({"kind": "c07", "spec": s.name(), "side": f.side, "a": f.a, "delta": f.d, "b": f.b}),
                     ),
-                    Ok(_) => machinery(format!("C07 {}: failure did not reproduce ({:?}; first: {})", s.name(), (f.side, &f.a, &f.d, &f.b), f.msg)),
+                    Ok(_) => guard::note_flaky(format!("C07 {}: failure did not reproduce ({:?}; first: {})", s.name(), (f.side, &f.a, &f.d, &f.b), f.msg)),
                 }
             }
         }
